@@ -33,6 +33,7 @@ type c04Params struct {
 	C2S2       []int  `json:"c2s_resumed"`
 	S2C2       []int  `json:"s2c_resumed"`
 	VecParams  bool   `json:"vec_params"`
+	PMTU       int    `json:"pmtu,omitempty"` // datagram stack: path MTU of both ends (0 = default; small values fragment the flights)
 }
 
 func (c04) ID() string    { return "C04" }
@@ -87,6 +88,9 @@ func drawC04(src *vs.Src) *c04Params {
 	}
 	p.C2S, p.S2C = drawSizes(src, 4, max), drawSizes(src, 4, max)
 	p.C2S2, p.S2C2 = drawSizes(src, 3, max/4), drawSizes(src, 3, max/4)
+	if p.Stack == DTLCP {
+		p.PMTU = pickInt(src, []int{0, 0, 576, 300, 200})
+	}
 	return p
 }
 
@@ -183,8 +187,8 @@ func (c04) Run(c *Case, src *vs.Src) *Result {
 		p = drawC04(src)
 	}
 	r.Sample = p
-	cc := &EPConf{Suites: []uint16{p.Suite}, ServerName: "server.test", Cache: "c", VecParams: p.VecParams}
-	sc := &EPConf{Suites: []uint16{p.Suite}, Certs: []string{"server_sig", "server_enc"}, Cache: "s"}
+	cc := &EPConf{Suites: []uint16{p.Suite}, ServerName: "server.test", Cache: "c", VecParams: p.VecParams, PMTU: p.PMTU}
+	sc := &EPConf{Suites: []uint16{p.Suite}, Certs: []string{"server_sig", "server_enc"}, Cache: "s", PMTU: p.PMTU}
 	if p.ClientAuth || IsECDHE(p.Suite) {
 		cc.Certs = []string{"client_sig", "client_enc"}
 	}
@@ -324,6 +328,9 @@ func (c04) Run(c *Case, src *vs.Src) *Result {
 	}
 	if ok && p.Stack == DTLCP {
 		c04HeaderProbe(c, src, p, env, cc, sc, r, sigp)
+	}
+	if ok && p.Stack == TLCP && IsCBC(p.Suite) {
+		c04RandFailProbe(c, src, p, env, cc, sc, sec, r, sigp)
 	}
 	r.Outcome = outcome
 	r.Trivial = r.Stats["nontrivial"] < 2
@@ -491,4 +498,61 @@ func c04HeaderProbe(c *Case, src *vs.Src, p *c04Params, env *Env, cc, sc *EPConf
 		r.Violate("header-auth", sigp+" header-field-not-authenticated "+api, "after copies of the first record with type / version / epoch / sequence number / length changed in the header, followed by the three genuine records (sequence numbers from %#x), %s delivered %q and ended with %v; expected exactly the three genuine payloads and then the read deadline", seqBase, api, got, endErr)
 	}
 	r.Stat("header_probe", 1)
+}
+
+// c04RandFailProbe: "per-record nonces and IVs never repeat under one key" when the application's random source
+// stops working after the handshake (CBC draws an explicit IV per record). Writes may fail; a record that does
+// leave must not carry an IV that was used before.
+func c04RandFailProbe(c *Case, src *vs.Src, p *c04Params, env *Env, cc, sc *EPConf, sec *ref.Secrets, r *Result, sigp string) {
+	w := NewWorld(c.Seed+9, src)
+	w.K.MaxElapsed = 60 * time.Second
+	env.W = w
+	fail := false
+	c2 := *cc
+	c2.RandFail = &fail
+	pair := NewPair(TLCP, env, &c2, sc, "cf", "sf", "client:1", "server:443")
+	var hsErr error
+	wrote, failed := 0, 0
+	w.Go("client", func() {
+		if hsErr = pair.C.Handshake(); hsErr != nil {
+			pair.C.Close()
+			return
+		}
+		pair.C.Write([]byte("before the source fails"))
+		fail = true
+		for i := 0; i < 6; i++ {
+			if _, err := pair.C.Write(bytes.Repeat([]byte{byte(i)}, 100)); err != nil {
+				failed++
+			} else {
+				wrote++
+			}
+		}
+		pair.C.Close()
+	})
+	w.Go("server", func() {
+		if err := pair.S.Handshake(); err != nil {
+			pair.S.Close()
+			return
+		}
+		buf := make([]byte, 4096)
+		for {
+			pair.S.SetReadDeadline(vs.Now().Add(3 * time.Second))
+			if _, err := pair.S.Read(buf); err != nil {
+				break
+			}
+		}
+		pair.S.Close()
+	})
+	reason, unf := w.Run()
+	w.Finish(r, sigp)
+	if reason != vs.Done || hsErr != nil {
+		r.Violate("probe-setup", sigp+" rand-fail-probe setup", "run ended with %q (unfinished %v), handshake %v", reason, unf, hsErr)
+		return
+	}
+	sec.Eph = env.KeyOps.Eph
+	v := pair.Observe(sec)
+	for _, e := range v.NonceReuse {
+		r.Violate("nonce-reuse", sigp+" iv-reuse-after-rand-failure", "after Config.Rand began to fail, %d Writes succeeded and %d failed; on the wire: %s", wrote, failed, e)
+	}
+	r.Stat("rand_fail_probe", 1)
 }
